@@ -3,7 +3,7 @@
 (* Structural annotations: their truth on an exact matrix, and (below)     *)
 (* the model of cola's inference rules (cola/annotations.py).              *)
 (***************************************************************************)
-EXTENDS Expr
+EXTENDS Expr, FiniteSets
 
 AnnNames == {"SelfAdjoint", "PSD", "Stiefel", "Unitary"}
 \* PSD <= SelfAdjoint, Unitary <= Stiefel  (class hierarchy of cola.annotations)
@@ -15,4 +15,53 @@ Holds(a, M) ==
       [] a = "PSD" -> IsSquare(M) /\ IsPSD(M)
       [] a = "Stiefel" -> IsStiefel(M)
       [] a = "Unitary" -> IsUnitary(M)
+---------------------------------------------------------------------------
+(* Model of cola's inference (cola/annotations.py get_annotations rules, merged with explicit       *)
+(* annotations in LinearOperator.__init__, and the declaration wrapper WrapMeta.__call__).           *)
+(* Annotation sets are literal sets of names, exactly as in the code: {PSD} & {SelfAdjoint} = {}.    *)
+(* "Gram" nodes stand for Product(Transpose(x), x) / Product(Adjoint(x), x) / Product(x, Adjoint(x)) *)
+(* built from ONE object x (the code's A^T A pattern tests object identity, which a tree of values   *)
+(* cannot express otherwise).                                                                        *)
+CtorKinds == {"Dense", "Triangular", "Sparse", "Jacobian", "Hessian", "Diagonal", "Tridiagonal", "Identity",
+              "ScalarMul", "Permutation", "Householder", "Kernel", "FFT", "Product", "Sum", "Kronecker", "KronSum",
+              "BlockDiag", "Transpose", "Adjoint", "Sliced", "Concatenated", "NoDispatch", "Annot",
+              "GramT", "GramH", "GramHr"}
+RECURSIVE CtorOnly(_)
+CtorOnly(t) == t.k \in CtorKinds /\ \A i \in 1..Len(t.a): CtorOnly(t.a[i])
+
+RECURSIVE Infer(_)
+Infer(t) ==
+    LET Ch(i) == Infer(t.a[i])
+        RECURSIVE Meet(_)
+        Meet(i) == IF i = 1 THEN Ch(1) ELSE Ch(i) \cap Meet(i - 1)
+        NonScalar == {i \in 1..Len(t.a): t.a[i].k # "ScalarMul"}
+    IN
+    CASE t.k \in {"Kronecker", "BlockDiag"} -> Meet(Len(t.a))
+      [] t.k = "Sum" -> Meet(Len(t.a)) \ {"Unitary", "Stiefel"}
+      [] t.k = "Product" ->
+            IF Cardinality(NonScalar) = 1 THEN Ch(CHOOSE i \in NonScalar: TRUE)
+            ELSE Meet(Len(t.a)) \cap {"Unitary", "Stiefel"}
+      \* the transposed factor carries x's annotations minus Stiefel; the A^T A pattern is recognised only
+      \* for real x, a complex x falls through to the generic two-factor rule
+      \* (are_the_same tests the *second* factor for Adjoint/Transpose first, so x (.)^T-wrapped itself hides
+      \* the pattern when it stands on the right)
+      [] t.k = "GramHr" -> (Ch(1) \cap {"Unitary"}) \cup {"PSD"}
+      [] t.k = "GramH" ->
+            IF t.a[1].k \in {"Adjoint", "Transpose"} THEN Ch(1) \cap {"Unitary"}
+            ELSE (Ch(1) \cap {"Unitary"}) \cup {"PSD"}
+      [] t.k = "GramT" ->
+            IF IsComplexDT(DTypeOf(t.a[1])) \/ t.a[1].k \in {"Adjoint", "Transpose"} THEN Ch(1) \cap {"Unitary"}
+            ELSE (Ch(1) \cap {"Unitary"}) \cup {"PSD"}
+      [] t.k = "Hessian" -> {"SelfAdjoint"}
+      [] t.k = "Identity" -> {"Unitary", "PSD"}
+      [] t.k \in {"Permutation", "FFT"} -> {"Unitary"}
+      [] t.k = "Sliced" ->
+            IF t.p.rf = t.p.cf THEN Ch(1) \ {"Unitary", "Stiefel"} ELSE {}
+      [] t.k \in {"Transpose", "Adjoint"} -> Ch(1) \ {"Stiefel"}
+      [] t.k = "Annot" -> Ch(1) \cup {t.p.ann}
+      [] OTHER -> {}
+
+TrueAnns(M) == {a \in AnnNames: Holds(a, M)}
+\* annotations the model infers that are false of the exact matrix
+Unsound(t) == {a \in Infer(t): ~Holds(a, Denote(t))}
 =============================================================================
